@@ -41,6 +41,13 @@ CHECKS["C11"] = dict(
     note="Trusted: Coq kernel; hand model WordSubst.v (re.sub scan for the two pattern shapes, re replacement templates, cpp_ast.py, unique_name, arbitrary_statement, set_var, block.emit); Python's re itself; ASCII word characters; extraction, OCaml driver, S-expression codec; the stub visitor of the function-level correspondence (argument text is an arbitrary string in the theorems); parse_type/terminal rendering (C10). cpp_ast_finder is modelled and differentially tested, not the subject of a theorem. Correspondence and traces are tests bounded by their generators.",
     technique="Coq proof (strong induction over the line by leading runs; refinement of a regex scan to a tokeniser) + model/implementation correspondence + end-to-end traces",
 )
+CHECKS["C17"] = dict(
+    category="proof",
+    text="Local docker execution (LocalDataset.__init__, execute_result_async, _extract_result_TTree and the three backend subclasses) is modelled as a pure function of file list, constructor arguments, environment, metadata, translator outcome and a scripted container; Coq proves for every file list / metadata list / chunk list that a missing file, no file, files from two directories or a refused query raise before any docker.run call (C17_precheck, C17_translation_error), that otherwise docker.run is called exactly once with the image named by the last docker metadata entry else image:tag, command /scripts/<runner>, the package at /scripts (ro) and /results (rw), the absolute data directory at /data/ (ro) plus the backend's cache volumes, and filelist.txt = /data/<name> per file in order (C17_call, C17_image), that a DockerException at the call or after any chunk, a missing result file or output directory give an exception and success gives exactly [out_dir/ANALYSIS.root] (C17_outcome), and conversely that a path is returned only after one complete successful run (C17_no_result_unless_success). The model is tied to the code by running the real classes of all three backends against a vendored stand-in python_on_whales on generated scenarios; an independent oracle evaluates the property text on the recorded call, the files the container saw and the return value. Removal of the temporary directory is tested on every path, not proved.",
+    design_ref="5.17",
+    note="Trusted: Coq kernel; hand model LocalDataset.v (package generation abstract, pathlib parent/name split and path equality as given, log text not modelled); the stand-in python_on_whales (tools/stubs) reproduces the documented streaming behaviour of docker.run and docker's rule that a relative volume source is a volume name; extraction, OCaml driver, S-expression codec; the correspondence is a differential test bounded by its generator; tempfile.TemporaryDirectory's cleanup is a library contract checked by listing the temp root after every run.",
+    technique="Coq proof (induction over file / metadata / chunk lists) + model/implementation correspondence with a stand-in docker client + property oracle on recorded calls",
+)
 NOT_YET = {}
 
 def main():
